@@ -47,6 +47,7 @@ fn c20_strategy() -> impl Strategy<Value = Scenario> {
         hold: vec![],
             freeze_polls: false,
         initial_pending: vec![],
+        ds_read_faults: vec![],
         })
 }
 
